@@ -1,5 +1,7 @@
-(* Stages B-D, part 2: the reference semantics Sem.run on programs over top-level variables (conditionals and condition
-   loops nested to any depth) computes exactly [run_stmts], whenever the latter's fuel suffices. *)
+(* Stages B-E, part 2: the reference semantics Sem.run on programs over variables (declared at the top level and in blocks;
+   conditionals and condition loops with break / continue nested to any depth) computes exactly [run_stmts], whenever
+   the latter's fuel suffices.  The variable at position i of the visible ones is bound, in the environment, to a store
+   location of its own that holds its value; the bindings a block adds are gone when the block ends. *)
 From Coq Require Import List ZArith NArith Bool Arith Lia.
 Require Import RV.model.Syntax RV.model.Sem RV.proofs.SemScalarProofs.
 Require RV.model.ScalarFrag RV.model.VarProg RV.proofs.VarProgFacts.
@@ -119,6 +121,22 @@ Proof. revert i j; induction l as [|x l IH]; intros [|i] [|j] H; cbn; try reflex
 Lemma length_list_set (A : Type) (l : list A) i v : length (list_set l i v) = length l.
 Proof. revert i; induction l as [|x l IH]; intros [|i]; cbn; auto. Qed.
 
+Lemma NoDup_app_snoc (A : Type) (l : list A) x : NoDup l -> ~ In x l -> NoDup (l ++ [x]).
+Proof.
+  intros Hn Hx. induction l as [|y l IH]; cbn; [constructor; [intros []|constructor]|].
+  inversion Hn as [|? ? Hy Hl]; subst. constructor.
+  - intros Hin. apply in_app_or in Hin. destruct Hin as [Hin|[->|[]]]; [exact (Hy Hin)|apply Hx; left; reflexivity].
+  - apply IH; [exact Hl|intros Hin; apply Hx; right; exact Hin].
+Qed.
+Lemma NoDup_app_remove_r (A : Type) (l x : list A) : NoDup (l ++ x) -> NoDup l.
+Proof.
+  induction l as [|y l IH]; intros H; [constructor|]. cbn in H. inversion H as [|? ? Hy Hl]; subst. constructor.
+  - intros Hin. apply Hy. apply in_or_app. left. exact Hin.
+  - exact (IH Hl).
+Qed.
+Lemma nth_firstn_lt (A : Type) (l : list A) n i d : i < n -> nth i (firstn n l) d = nth i l d.
+Proof. revert n i; induction l as [|x l IH]; intros [|n] [|i] H; cbn; try reflexivity; try lia. apply IH. lia. Qed.
+
 Section Names.
   Variable names : list (list N).
   Hypothesis names_nodup : NoDup names.
@@ -129,25 +147,43 @@ Section Names.
   Lemma name_nonempty i : i < length names -> nth i names [] <> [].
   Proof. intros Hi. exact (proj1 (Forall_forall _ names) names_nonempty _ (nth_In names [] Hi)). Qed.
 
-  (* the environment and the store after the variables rho have been declared *)
-  Definition sem_inv (rho : list F.sval) (e : env) (s : state) : Prop :=
-    length rho <= length names /\
-    e <> [] /\
-    length (store s) = 2 + length rho /\
-    forall i, i < length rho ->
-      lookup e (nth i names []) = Some (2 + i, false) /\ nth (2 + i) (store s) VNil = inj (nth i rho F.VNil).
+  (* the environment knows the visible variables (slots [scope]) at the store locations [locs] ... *)
+  Definition env_part (scope locs : list nat) (e : env) : Prop :=
+    e <> [] /\ length locs = length scope /\
+    forall i, i < length scope -> lookup e (nth (nth i scope 0) names []) = Some (nth i locs 0, false).
+  (* ... and the store holds their values [rho] there; different variables have different locations *)
+  Definition store_part (rho : list F.sval) (locs : list nat) (s : state) : Prop :=
+    length locs = length rho /\ NoDup locs /\
+    forall i, i < length rho -> nth (nth i locs 0) (store s) VNil = inj (nth i rho F.VNil) /\ nth i locs 0 < length (store s).
+  Definition sem_inv (rho : list F.sval) (scope locs : list nat) (e : env) (s : state) : Prop :=
+    env_part scope locs e /\ store_part rho locs s.
+  (* every visible slot is below the next free one, which is within the names *)
+  Definition scope_ok (k : nat) (scope : list nat) : Prop := Forall (fun sl => sl < k) scope /\ k <= length names.
 
-  Lemma sem_inv_env_ok rho e s : sem_inv rho e s -> env_ok names rho e s.
+  Lemma vnames_nth scope i : i < length scope -> nth i (P.vnames names scope) [] = nth (nth i scope 0) names [].
   Proof.
-    intros [Hl [_ [_ H]]] i v Hi.
+    intros Hi. unfold P.vnames. rewrite (nth_indep _ [] (nth 0 names [])) by (rewrite map_length; exact Hi).
+    exact (map_nth (fun sl => nth sl names []) scope 0 i).
+  Qed.
+  Lemma scope_slot k scope i : scope_ok k scope -> i < length scope -> nth i scope 0 < length names.
+  Proof. intros [H Hk] Hi. pose proof (proj1 (Forall_forall _ _) H _ (nth_In scope 0 Hi)) as H0. cbn in H0. lia. Qed.
+
+  Lemma sem_inv_env_ok rho scope locs e s k : sem_inv rho scope locs e s -> scope_ok k scope ->
+    env_ok (P.vnames names scope) rho e s.
+  Proof.
+    intros [[Hne [Hll H]] [Hlr [_ Hs]]] Hok i v Hi.
     assert (Hlt : i < length rho) by (apply nth_error_Some; congruence).
-    split; [apply name_nonempty; lia|].
-    destruct (H i Hlt) as [Hk Hv]. exists (2 + i), false. split; [exact Hk|].
-    rewrite Hv. rewrite (nth_error_nth rho i F.VNil Hi). reflexivity.
+    assert (Hls : i < length scope) by lia.
+    rewrite (vnames_nth scope i Hls). split; [apply name_nonempty; exact (scope_slot k scope i Hok Hls)|].
+    exists (nth i locs 0), false. split; [exact (H i Hls)|].
+    destruct (Hs i Hlt) as [Hv _]. rewrite Hv, (nth_error_nth rho i F.VNil Hi). reflexivity.
   Qed.
 
-  Lemma sem_inv_init : sem_inv [] ([] :: global_env) init_state.
-  Proof. split; [cbn; lia|]. split; [discriminate|]. split; [reflexivity|]. intros i Hi. cbn in Hi. lia. Qed.
+  Lemma sem_inv_init : sem_inv [] [] [] ([] :: global_env) init_state.
+  Proof.
+    split; [split; [discriminate|split; [reflexivity|intros i Hi; cbn in Hi; lia]]|].
+    split; [reflexivity|split; [constructor|intros i Hi; cbn in Hi; lia]].
+  Qed.
 
   Lemma lookup_bind_same e nm l c : e <> [] -> lookup (bind_name e nm l c) nm = Some (l, c).
   Proof. destruct e as [|sc r]; [contradiction|]. intros _. cbn. rewrite sbeq_refl. reflexivity. Qed.
@@ -156,49 +192,67 @@ Section Names.
   Lemma bind_nonempty e nm l c : bind_name e nm l c <> [].
   Proof. destruct e; discriminate. Qed.
 
-  (* declaring the next variable *)
-  Lemma sem_inv_decl rho e s v : sem_inv rho e s -> length rho < length names ->
-    sem_inv (rho ++ [v]) (bind_name e (nth (length rho) names []) (length (store s)) false) (snd (alloc s (inj v))).
+  (* declaring the next variable (slot k): a new location *)
+  Lemma sem_inv_decl rho scope locs e s v k : sem_inv rho scope locs e s -> scope_ok k scope -> k < length names ->
+    sem_inv (rho ++ [v]) (scope ++ [k]) (locs ++ [length (store s)])
+            (bind_name e (nth k names []) (length (store s)) false) (snd (alloc s (inj v))).
   Proof.
-    intros [Hl [Hne [Hst H]]] Hlt. unfold sem_inv, alloc. cbn [snd store].
-    split; [rewrite app_length; cbn; lia|]. split; [apply bind_nonempty|].
-    split; [rewrite !app_length; cbn; lia|].
-    intros i Hi. rewrite app_length in Hi. cbn in Hi.
-    destruct (Nat.eq_dec i (length rho)) as [->|Hd].
-    - rewrite lookup_bind_same by exact Hne. rewrite Hst. split; [reflexivity|].
-      rewrite app_nth2 by lia. rewrite Hst, Nat.sub_diag. rewrite app_nth2 by lia. rewrite Nat.sub_diag. reflexivity.
-    - assert (Hi' : i < length rho) by lia.
-      rewrite lookup_bind_other by (try exact Hne; apply names_distinct; lia).
-      destruct (H i Hi') as [Hk Hv]. split; [exact Hk|].
-      rewrite app_nth1 by lia. rewrite Hv. rewrite app_nth1 by lia. reflexivity.
+    intros [[Hne [Hll H]] [Hlr [Hnd Hs]]] Hok Hk. unfold alloc. cbn [snd store].
+    split.
+    - split; [apply bind_nonempty|]. split; [rewrite !app_length; cbn; lia|].
+      intros i Hi. rewrite app_length in Hi. cbn in Hi.
+      destruct (Nat.eq_dec i (length scope)) as [->|Hd].
+      + assert (E1 : nth (length scope) (scope ++ [k]) 0 = k) by (rewrite app_nth2 by lia; rewrite Nat.sub_diag; reflexivity).
+        assert (E2 : nth (length scope) (locs ++ [length (store s)]) 0 = length (store s))
+          by (rewrite <- Hll, app_nth2 by lia; rewrite Nat.sub_diag; reflexivity).
+        rewrite E1, E2. apply lookup_bind_same. exact Hne.
+      + assert (Hi' : i < length scope) by lia.
+        assert (E1 : nth i (scope ++ [k]) 0 = nth i scope 0) by (apply app_nth1; exact Hi').
+        assert (E2 : nth i (locs ++ [length (store s)]) 0 = nth i locs 0) by (apply app_nth1; lia).
+        rewrite E1, E2. rewrite lookup_bind_other; [exact (H i Hi')|exact Hne|].
+        apply names_distinct; [exact (scope_slot k scope i Hok Hi')|exact Hk|].
+        destruct Hok as [Hf _]. pose proof (proj1 (Forall_forall _ _) Hf _ (nth_In scope 0 Hi')) as H0. cbn in H0. lia.
+    - split; [rewrite !app_length; cbn; lia|]. split.
+      + apply NoDup_app_snoc; [exact Hnd|]. intros Hin. apply In_nth with (d := 0) in Hin. destruct Hin as [j [Hj Ej]].
+        destruct (Hs j ltac:(lia)) as [_ Hlt]. lia.
+      + intros i Hi. rewrite app_length in Hi. cbn in Hi. cbn [store].
+        destruct (Nat.eq_dec i (length rho)) as [->|Hd].
+        * assert (E1 : nth (length rho) (locs ++ [length (store s)]) 0 = length (store s))
+            by (rewrite <- Hlr, app_nth2 by lia; rewrite Nat.sub_diag; reflexivity).
+          assert (E2 : nth (length rho) (rho ++ [v]) F.VNil = v) by (rewrite app_nth2 by lia; rewrite Nat.sub_diag; reflexivity).
+          rewrite E1, E2. rewrite app_nth2 by lia. rewrite Nat.sub_diag. cbn [nth].
+          split; [reflexivity|rewrite app_length; cbn; lia].
+        * assert (Hi' : i < length rho) by lia. destruct (Hs i Hi') as [Hv Hlt].
+          assert (E1 : nth i (locs ++ [length (store s)]) 0 = nth i locs 0) by (apply app_nth1; lia).
+          assert (E2 : nth i (rho ++ [v]) F.VNil = nth i rho F.VNil) by (apply app_nth1; exact Hi').
+          rewrite E1, E2, (app_nth1 _ _ _ Hlt). split; [exact Hv|rewrite app_length; lia].
   Qed.
 
-  (* assigning to a declared variable *)
-  Lemma sem_inv_set rho e s i v : sem_inv rho e s -> i < length rho ->
-    sem_inv (P.set_nth i v rho) e (set_store s (2 + i) (inj v)).
+  (* assigning to a visible variable *)
+  Lemma sem_inv_set rho scope locs e s i v : sem_inv rho scope locs e s -> i < length rho ->
+    sem_inv (P.set_nth i v rho) scope locs e (set_store s (nth i locs 0) (inj v)).
   Proof.
-    intros [Hl [Hne [Hst H]]] Hi. unfold sem_inv, set_store. cbn [store].
-    split; [rewrite PF.set_nth_length; exact Hl|]. split; [exact Hne|].
-    split; [rewrite length_list_set, PF.set_nth_length; exact Hst|].
-    intros j Hj. rewrite PF.set_nth_length in Hj. destruct (H j Hj) as [Hk Hv]. split; [exact Hk|].
+    intros [Henv [Hlr [Hnd Hs]]] Hi. split; [exact Henv|]. unfold set_store. cbn [store].
+    split; [rewrite PF.set_nth_length; exact Hlr|]. split; [exact Hnd|].
+    intros j Hj. rewrite PF.set_nth_length in Hj. destruct (Hs j Hj) as [Hv Hlt]. cbn [store]. rewrite length_list_set.
     destruct (Nat.eq_dec j i) as [->|Hd].
-    - rewrite nth_list_set_same by lia. rewrite PF.nth_set_nth_same by lia. reflexivity.
-    - rewrite nth_list_set_other by lia. rewrite PF.nth_set_nth_other by lia. exact Hv.
+    - rewrite nth_list_set_same by exact Hlt. rewrite PF.nth_set_nth_same by lia. split; [reflexivity|exact Hlt].
+    - rewrite nth_list_set_other.
+      + rewrite PF.nth_set_nth_other by lia. split; [exact Hv|exact Hlt].
+      + intros E. apply Hd. symmetry. apply (proj1 (NoDup_nth locs 0) Hnd i j); [lia|lia|exact E].
   Qed.
 
-  (* entering and leaving a block: an empty scope on top changes nothing the invariant talks about *)
-  Lemma sem_inv_push rho e s : sem_inv rho e s -> sem_inv rho ([] :: e) s.
-  Proof. intros [Hl [Hne [Hst H]]]. split; [exact Hl|]. split; [discriminate|]. split; [exact Hst|]. exact H. Qed.
-  Lemma sem_inv_pop rho e s : e <> [] -> sem_inv rho ([] :: e) s -> sem_inv rho e s.
-  Proof. intros Hne [Hl [_ [Hst H]]]. split; [exact Hl|]. split; [exact Hne|]. split; [exact Hst|]. exact H. Qed.
-
-  (* the environment half of the invariant does not depend on the state, the store half not on the environment *)
-  Lemma sem_inv_swap rho e s rho' e' s' : sem_inv rho e s -> sem_inv rho' e' s' -> length rho' = length rho ->
-    sem_inv rho' e s'.
+  (* entering a block: an empty scope on top changes nothing *)
+  Lemma env_part_push scope locs e : env_part scope locs e -> env_part scope locs ([] :: e).
+  Proof. intros [Hne [Hll H]]. split; [discriminate|]. split; [exact Hll|exact H]. Qed.
+  (* leaving it: the variables declared in it (and their locations) are forgotten *)
+  Lemma store_part_firstn rho locs x s n : store_part rho (locs ++ x) s -> length locs = n -> n <= length rho ->
+    store_part (firstn n rho) locs s.
   Proof.
-    intros [Hl [Hne [Hst H]]] [Hl' [Hne' [Hst' H']]] Hlen.
-    split; [exact Hl'|]. split; [exact Hne|]. split; [exact Hst'|].
-    intros i Hi. split; [apply H; lia|apply H'; exact Hi].
+    intros [Hlr [Hnd Hs]] Hn Hle. split; [rewrite firstn_length; lia|]. split; [exact (NoDup_app_remove_r _ _ _ Hnd)|].
+    intros i Hi. rewrite firstn_length in Hi. assert (Hi' : i < n) by lia.
+    destruct (Hs i ltac:(lia)) as [Hv Hlt]. rewrite app_nth1 in Hv, Hlt by lia.
+    rewrite nth_firstn_lt by exact Hi'. split; assumption.
   Qed.
 
   Lemma es_loop_cons f e s x r last : es_loop f e s (x :: r) last =
@@ -222,231 +276,245 @@ Section Names.
   Proof. reflexivity. Qed.
 
   (* ---------------------------------------------------------------- statements, lists, blocks, loops *)
-  (* what the evaluator returns for a statement whose source-level run gave r *)
-  Definition stmt_concl (r : (list F.sval * F.sval) + P.stop) (res : outcome * env * state) : Prop :=
-    match r with
-    | inl (rho', v) => exists e' s', res = (OVal (inj v), e', s') /\ sem_inv rho' e' s'
-    | inr (P.StErr x) => exists e' s', res = (lift (inr x), e', s')
-    | inr (P.StBrk rho') => exists e' s', res = (OBrk, e', s') /\ sem_inv rho' e' s'
-    | inr (P.StCont rho') => exists e' s', res = (OCont, e', s') /\ sem_inv rho' e' s'
-    end.
-  (* the same for a block: the environment is the one the block was entered with *)
-  Definition block_concl (e : env) (r : (list F.sval * F.sval) + P.stop) (res : outcome * env * state) : Prop :=
-    match r with
-    | inl (rho', v) => exists s', res = (OVal (inj v), e, s') /\ sem_inv rho' e s'
-    | inr (P.StErr x) => exists s', res = (lift (inr x), e, s')
-    | inr (P.StBrk rho') => exists s', res = (OBrk, e, s') /\ sem_inv rho' e s'
-    | inr (P.StCont rho') => exists s', res = (OCont, e, s') /\ sem_inv rho' e s'
-    end.
-  Lemma block_stmt_concl e r res : block_concl e r res -> stmt_concl r res.
+  (* the visible slots after a list of statements *)
+  Fixpoint scope_after (k : nat) (scope : list nat) (l : list P.stmt) : list nat :=
+    match l with [] => scope | s :: r => scope_after (k + P.nd s) (P.next_scope k scope s) r end.
+
+  Lemma scope_ok_next k scope st : scope_ok k scope -> k + P.nd st <= length names ->
+    scope_ok (k + P.nd st) (P.next_scope k scope st).
   Proof.
-    destruct r as [[rho' v]|[x|rho'|rho']]; cbn [block_concl stmt_concl].
-    - intros [s' [H Hi]]. exists e, s'. split; assumption.
+    intros [Hf Hk] Hn. split; [|exact Hn].
+    assert (H0 : Forall (fun sl => sl < k + P.nd st) scope) by (eapply Forall_impl; [|exact Hf]; cbn; intros; lia).
+    destruct st; cbn [P.next_scope P.nd] in *; try exact H0.
+    apply Forall_app. split; [exact H0|constructor; [lia|constructor]].
+  Qed.
+
+  (* what the evaluator returns for a statement / a list whose source-level run gave r; [sc']: the scope afterwards *)
+  Definition run_concl (locs sc' : list nat) (r : (list F.sval * F.sval) + P.stop) (res : outcome * env * state) : Prop :=
+    match r with
+    | inl (rho', v) => exists e' s' x, res = (OVal (inj v), e', s') /\ sem_inv rho' sc' (locs ++ x) e' s'
+    | inr (P.StErr x) => exists e' s', res = (lift (inr x), e', s')
+    | inr (P.StBrk rho') => exists e' s' x, res = (OBrk, e', s') /\ store_part rho' (locs ++ x) s'
+    | inr (P.StCont rho') => exists e' s' x, res = (OCont, e', s') /\ store_part rho' (locs ++ x) s'
+    end.
+  (* the same for a block: the environment and the scope are the ones the block was entered with *)
+  Definition block_concl (scope locs : list nat) (e : env) (r : (list F.sval * F.sval) + P.stop) (res : outcome * env * state) : Prop :=
+    match r with
+    | inl (rho', v) => exists s', res = (OVal (inj v), e, s') /\ sem_inv rho' scope locs e s'
+    | inr (P.StErr x) => exists s', res = (lift (inr x), e, s')
+    | inr (P.StBrk rho') => exists s', res = (OBrk, e, s') /\ store_part rho' locs s'
+    | inr (P.StCont rho') => exists s', res = (OCont, e, s') /\ store_part rho' locs s'
+    end.
+  Lemma block_run_concl scope locs e r res : block_concl scope locs e r res -> run_concl locs scope r res.
+  Proof.
+    destruct r as [[rho' v]|[x|rho'|rho']]; cbn [block_concl run_concl].
+    - intros [s' [H Hi]]. exists e, s', []. rewrite app_nil_r. split; assumption.
     - intros [s' H]. exists e, s'. exact H.
-    - intros [s' [H Hi]]. exists e, s'. split; assumption.
-    - intros [s' [H Hi]]. exists e, s'. split; assumption.
+    - intros [s' [H Hi]]. exists e, s', []. rewrite app_nil_r. split; assumption.
+    - intros [s' [H Hi]]. exists e, s', []. rewrite app_nil_r. split; assumption.
   Qed.
 
   (* what holds of one statement run with source fuel n, evaluated with fuel S f *)
   Definition stmt_sem (n : nat) : Prop :=
-    forall st rho e s f top lp r,
-      sem_inv rho e s -> P.wf_stmt top lp (length rho) st = true -> P.next_k (length rho) st <= length names ->
-      P.sheight st <= f -> n <= f -> P.run_stmt n rho st = Some r ->
-      stmt_concl r (eval (S f) e s (P.embed_stmt names (length rho) st)).
+    forall st rho scope locs e s f lp k r,
+      sem_inv rho scope locs e s -> scope_ok k scope -> k + P.nd st <= length names ->
+      P.wf_stmt lp (length rho) st = true -> P.sheight st <= f -> n <= f -> P.run_stmt n rho st = Some r ->
+      run_concl locs (P.next_scope k scope st) r (eval (S f) e s (P.embed_stmt names k scope st)).
 
-  Lemma stmt_last n rho st rho' v : P.run_stmt n rho st = Some (inl (rho', v)) ->
-    (if is_expression (P.embed_stmt names (length rho) st) then inj v else VNil) = inj v.
+  Lemma stmt_last n rho k scope st rho' v : P.run_stmt n rho st = Some (inl (rho', v)) ->
+    (if is_expression (P.embed_stmt names k scope st) then inj v else VNil) = inj v.
   Proof.
     intros Hr. rewrite PF.embed_stmt_is_expression. destruct (P.is_expr_stmt st) eqn:E; [reflexivity|].
     rewrite (PF.run_stmt_value n rho st rho' v Hr E). reflexivity.
   Qed.
 
-  Lemma es_list n f : stmt_sem n -> n <= f -> forall l rho e s last top lp r,
-    sem_inv rho e s -> P.wf_stmts top lp (length rho) l = true -> length rho + P.ndecls l <= length names ->
-    P.max_height l <= f -> P.run_stmts n rho l last = Some r ->
-    stmt_concl r (es_loop (S f) e s (P.embed_stmts names (length rho) l) (inj last)).
+  Lemma es_list n f : stmt_sem n -> n <= f -> forall l rho scope locs e s last lp k r,
+    sem_inv rho scope locs e s -> scope_ok k scope -> k + P.ndecls l <= length names ->
+    P.wf_stmts lp (length rho) l = true -> P.max_height l <= f -> P.run_stmts n rho l last = Some r ->
+    run_concl locs (scope_after k scope l) r (es_loop (S f) e s (P.embed_stmts names k scope l) (inj last)).
   Proof.
-    intros Hst Hnf. induction l as [|st r0 IH]; intros rho e s last top lp r Hinv Hwf Hn Hh Hr.
-    - cbn in Hr. inversion Hr; subst r. cbn. exists e, s. split; [reflexivity|exact Hinv].
+    intros Hst Hnf. induction l as [|st r0 IH]; intros rho scope locs e s last lp k r Hinv Hok Hn Hwf Hh Hr.
+    - cbn in Hr. inversion Hr; subst r. cbn. exists e, s, []. rewrite app_nil_r. split; [reflexivity|exact Hinv].
     - rewrite PF.wf_stmts_cons in Hwf. apply andb_true_iff in Hwf. destruct Hwf as [Hws Hwr].
-      rewrite PF.max_height_cons in Hh. rewrite PF.run_stmts_cons in Hr. rewrite PF.embed_stmts_cons, es_loop_cons.
-      assert (Hnk : P.next_k (length rho) st <= length names) by (rewrite <- PF.ndecls_cons in Hn; lia).
+      rewrite PF.max_height_cons in Hh. rewrite PF.ndecls_cons in Hn. rewrite PF.run_stmts_cons in Hr.
+      rewrite PF.embed_stmts_cons, es_loop_cons. cbn [scope_after].
       destruct (P.run_stmt n rho st) as [[[rho1 v1]|x]|] eqn:Er; [| |discriminate].
-      + pose proof (Hst st rho e s f top lp _ Hinv Hws Hnk ltac:(lia) Hnf Er) as He. cbn [stmt_concl] in He.
-        destruct He as [e1 [s1 [He Hinv1]]]. rewrite He, (stmt_last n rho st rho1 v1 Er).
-        pose proof (PF.run_stmt_length n rho st top lp _ Hws Er) as Hlen. cbn [PF.len_ok] in Hlen.
-        rewrite <- Hlen.
-        apply (IH rho1 e1 s1 v1 top lp r Hinv1); [rewrite Hlen; exact Hwr|rewrite Hlen, PF.ndecls_cons; exact Hn|lia|exact Hr].
+      + pose proof (Hst st rho scope locs e s f lp k _ Hinv Hok ltac:(lia) Hws ltac:(lia) Hnf Er) as He. cbn [run_concl] in He.
+        destruct He as [e1 [s1 [x1 [He Hinv1]]]]. rewrite He, (stmt_last n rho k scope st rho1 v1 Er).
+        pose proof (PF.run_stmt_length n rho st _ Er) as Hlen. cbn [PF.len_ok] in Hlen. rewrite <- Hlen in Hwr.
+        pose proof (IH rho1 (P.next_scope k scope st) (locs ++ x1) e1 s1 v1 lp (k + P.nd st) r Hinv1
+                      (scope_ok_next k scope st Hok ltac:(lia)) ltac:(lia) Hwr ltac:(lia) Hr) as H2.
+        destruct r as [[rho2 v2]|[xx|rho2|rho2]]; cbn [run_concl] in *.
+        * destruct H2 as [e2 [s2 [x2 [H2 Hi2]]]]. exists e2, s2, (x1 ++ x2). rewrite app_assoc. split; assumption.
+        * exact H2.
+        * destruct H2 as [e2 [s2 [x2 [H2 Hi2]]]]. exists e2, s2, (x1 ++ x2). rewrite app_assoc. split; assumption.
+        * destruct H2 as [e2 [s2 [x2 [H2 Hi2]]]]. exists e2, s2, (x1 ++ x2). rewrite app_assoc. split; assumption.
       + inversion Hr; subst r.
-        pose proof (Hst st rho e s f top lp _ Hinv Hws Hnk ltac:(lia) Hnf Er) as He.
-        destruct x as [x|rho1|rho1]; cbn [stmt_concl] in *.
+        pose proof (Hst st rho scope locs e s f lp k _ Hinv Hok ltac:(lia) Hws ltac:(lia) Hnf Er) as He.
+        destruct x as [x|rho1|rho1]; cbn [run_concl] in *.
         * destruct He as [e1 [s1 He]]. rewrite He. exists e1, s1. destruct x; reflexivity.
-        * destruct He as [e1 [s1 [He Hi]]]. rewrite He. exists e1, s1. split; [reflexivity|exact Hi].
-        * destruct He as [e1 [s1 [He Hi]]]. rewrite He. exists e1, s1. split; [reflexivity|exact Hi].
+        * destruct He as [e1 [s1 [x1 [He Hi]]]]. rewrite He. exists e1, s1, x1. split; [reflexivity|exact Hi].
+        * destruct He as [e1 [s1 [x1 [He Hi]]]]. rewrite He. exists e1, s1, x1. split; [reflexivity|exact Hi].
   Qed.
 
-  Lemma eblock_list n f : stmt_sem n -> n <= f -> forall l rho e s lp r,
-    sem_inv rho e s -> P.wf_stmts false lp (length rho) l = true -> P.max_height l <= f ->
-    P.run_stmts n rho l F.VNil = Some r ->
-    block_concl e r (eblock (S f) e s (P.embed_stmts names (length rho) l)).
+  Lemma eblock_list n f : stmt_sem n -> n <= f -> forall l rho scope locs e s lp k r,
+    sem_inv rho scope locs e s -> scope_ok k scope -> k + P.ndecls l <= length names ->
+    P.wf_stmts lp (length rho) l = true -> P.max_height l <= f -> PF.run_blk n rho l = Some r ->
+    block_concl scope locs e r (eblock (S f) e s (P.embed_stmts names k scope l)).
   Proof.
-    intros Hst Hnf l rho e s lp r Hinv Hwf Hh Hr. unfold eblock.
-    assert (Hn : length rho + P.ndecls l <= length names)
-      by (rewrite (PF.wf_false_ndecls _ _ _ Hwf); destruct Hinv as [Hl _]; lia).
-    pose proof (es_list n f Hst Hnf l rho ([] :: e) s F.VNil false lp r (sem_inv_push rho e s Hinv) Hwf Hn Hh Hr) as H.
-    pose proof (PF.run_stmts_length n l rho F.VNil lp r Hwf Hr) as Hlen.
+    intros Hst Hnf l rho scope locs e s lp k r Hinv Hok Hn Hwf Hh Hr. unfold eblock.
+    unfold PF.run_blk in Hr. destruct (P.run_stmts n rho l F.VNil) as [r0|] eqn:Er; [|discriminate].
+    cbn in Hr. inversion Hr; subst r. clear Hr.
+    destruct Hinv as [Henv Hsto].
+    pose proof (es_list n f Hst Hnf l rho scope locs ([] :: e) s F.VNil lp k r0 (conj (env_part_push _ _ _ Henv) Hsto) Hok Hn Hwf Hh Er) as H.
+    pose proof (PF.run_stmts_length n l rho F.VNil r0 Er) as Hlen.
+    assert (Hll : length locs = length rho) by (destruct Hsto as [H0 _]; exact H0).
     change (inj F.VNil) with VNil in H.
-    destruct r as [[rho' v]|[x|rho'|rho']]; cbn [stmt_concl block_concl PF.lens_ok] in *.
-    - destruct H as [e' [s' [H Hinv']]]. rewrite H. exists s'. split; [reflexivity|].
-      exact (sem_inv_swap rho e s rho' e' s' Hinv Hinv' Hlen).
+    destruct r0 as [[rho' v]|[x|rho'|rho']]; cbn [run_concl block_concl P.trunc PF.lens_ok] in *.
+    - destruct H as [e' [s' [x [H [_ Hs']]]]]. rewrite H. exists s'. split; [reflexivity|].
+      split; [exact Henv|exact (store_part_firstn rho' locs x s' (length rho) Hs' Hll Hlen)].
     - destruct H as [e' [s' H]]. rewrite H. exists s'. reflexivity.
-    - destruct H as [e' [s' [H Hinv']]]. rewrite H. exists s'. split; [reflexivity|].
-      exact (sem_inv_swap rho e s rho' e' s' Hinv Hinv' Hlen).
-    - destruct H as [e' [s' [H Hinv']]]. rewrite H. exists s'. split; [reflexivity|].
-      exact (sem_inv_swap rho e s rho' e' s' Hinv Hinv' Hlen).
+    - destruct H as [e' [s' [x [H Hs']]]]. rewrite H. exists s'. split; [reflexivity|].
+      exact (store_part_firstn rho' locs x s' (length rho) Hs' Hll Hlen).
+    - destruct H as [e' [s' [x [H Hs']]]]. rewrite H. exists s'. split; [reflexivity|].
+      exact (store_part_firstn rho' locs x s' (length rho) Hs' Hll Hlen).
   Qed.
 
-  (* the condition loop: source fuel m, at most k rounds, body evaluated with fuel S f *)
-  Lemma wloop_sem f c b e : forall m, (forall j, j < m -> stmt_sem j) -> m <= S f ->
-    F.height c <= S f -> P.max_height b <= f ->
-    forall k rho s r, m <= k -> sem_inv rho e s -> F.wf (length rho) c = true -> P.wf_stmts false true (length rho) b = true ->
+  (* the condition loop: source fuel m, at most j rounds, body evaluated with fuel S f *)
+  Lemma wloop_sem f c b e scope locs k : forall m, (forall j, j < m -> stmt_sem j) -> m <= S f ->
+    F.height c <= S f -> P.max_height b <= f -> scope_ok k scope -> k + P.ndecls b <= length names ->
+    env_part scope locs e ->
+    forall j rho s r, m <= j -> store_part rho locs s -> length rho = length scope ->
+    F.wf (length rho) c = true -> P.wf_stmts true (length rho) b = true ->
     P.run_stmt m rho (P.SWhile c b) = Some r ->
     match r with
     | inl (rho', v) => exists s',
-        wloop (S f) e (F.embed names c) (P.embed_stmts names (length rho) b) k s = (OVal VNil, e, s') /\
-        sem_inv rho' e s' /\ v = F.VNil
-    | inr (P.StErr x) => exists s', wloop (S f) e (F.embed names c) (P.embed_stmts names (length rho) b) k s = (lift (inr x), e, s')
+        wloop (S f) e (F.embed (P.vnames names scope) c) (P.embed_stmts names k scope b) j s = (OVal VNil, e, s') /\
+        store_part rho' locs s' /\ v = F.VNil
+    | inr (P.StErr x) => exists s', wloop (S f) e (F.embed (P.vnames names scope) c) (P.embed_stmts names k scope b) j s = (lift (inr x), e, s')
     | inr _ => False
     end.
   Proof.
-    induction m as [|m IH]; intros Hst Hmf Hhc Hhb k rho s r Hk Hinv Hwc Hwb Hr; [discriminate|].
-    destruct k as [|k]; [lia|].
+    induction m as [|m IH]; intros Hst Hmf Hhc Hhb Hok Hn Henv j rho s r Hj Hsto Hls Hwc Hwb Hr; [discriminate|].
+    destruct j as [|j]; [lia|].
     rewrite PF.run_SWhile in Hr. rewrite wloop_S.
-    pose proof (sem_inv_push rho e s Hinv) as Hinv1.
-    rewrite (sem_scalar names rho c (S f) ([] :: e) s Hhc Hwc (sem_inv_env_ok rho ([] :: e) s Hinv1)).
+    assert (Hinv1 : sem_inv rho scope locs ([] :: e) s) by (split; [apply env_part_push; exact Henv|exact Hsto]).
+    rewrite (sem_scalar (P.vnames names scope) rho c (S f) ([] :: e) s Hhc Hwc (sem_inv_env_ok rho scope locs ([] :: e) s k Hinv1 Hok)).
     destruct (F.sev rho c) as [vc|x]; [|inversion Hr; subst r; exists s; destruct x; reflexivity].
     cbn [lift]. rewrite truthy_inj.
-    destruct (F.struthy vc); [|inversion Hr; subst r; exists s; split; [reflexivity|split; [exact Hinv|reflexivity]]].
-    assert (Hne : e <> []) by (destruct Hinv as [_ [Hne _]]; exact Hne).
-    assert (Hnext : forall rho1 s1, length rho1 = length rho -> sem_inv rho1 ([] :: e) s1 ->
-              P.run_stmt m rho1 (P.SWhile c b) = Some r ->
-              match r with
-              | inl (rho', v) => exists s', wloop (S f) e (F.embed names c) (P.embed_stmts names (length rho) b) k s1 = (OVal VNil, e, s') /\
-                                            sem_inv rho' e s' /\ v = F.VNil
-              | inr (P.StErr x) => exists s', wloop (S f) e (F.embed names c) (P.embed_stmts names (length rho) b) k s1 = (lift (inr x), e, s')
-              | inr _ => False
-              end).
-    { intros rho1 s1 Hlen Hinv2 Hr1. rewrite <- Hlen.
-      apply (IH ltac:(intros j Hj; apply Hst; lia) ltac:(lia) Hhc Hhb k rho1 s1 r ltac:(lia) (sem_inv_pop rho1 e s1 Hne Hinv2));
-        try (rewrite Hlen; assumption). exact Hr1. }
-    destruct (P.run_stmts m rho b F.VNil) as [[[rho1 v1]|[x|rho1|rho1]]|] eqn:Er; [| | | |discriminate].
-    - pose proof (eblock_list m f (Hst m ltac:(lia)) ltac:(lia) b rho ([] :: e) s true _ Hinv1 Hwb Hhb Er) as Hb.
-      cbn [block_concl] in Hb. destruct Hb as [s1 [Hb Hinv2]]. rewrite Hb.
-      pose proof (PF.run_stmts_length m b rho F.VNil true _ Hwb Er) as Hlen. cbn [PF.lens_ok] in Hlen.
-      exact (Hnext rho1 s1 Hlen Hinv2 Hr).
-    - pose proof (eblock_list m f (Hst m ltac:(lia)) ltac:(lia) b rho ([] :: e) s true _ Hinv1 Hwb Hhb Er) as Hb.
-      cbn [block_concl] in Hb. destruct Hb as [s1 Hb]. rewrite Hb. inversion Hr; subst r. exists s1. destruct x; reflexivity.
-    - (* break: the loop ends *)
-      pose proof (eblock_list m f (Hst m ltac:(lia)) ltac:(lia) b rho ([] :: e) s true _ Hinv1 Hwb Hhb Er) as Hb.
-      cbn [block_concl] in Hb. destruct Hb as [s1 [Hb Hinv2]]. rewrite Hb. inversion Hr; subst r.
-      exists s1. split; [reflexivity|]. split; [exact (sem_inv_pop rho1 e s1 Hne Hinv2)|reflexivity].
-    - (* continue: the next round *)
-      pose proof (eblock_list m f (Hst m ltac:(lia)) ltac:(lia) b rho ([] :: e) s true _ Hinv1 Hwb Hhb Er) as Hb.
-      cbn [block_concl] in Hb. destruct Hb as [s1 [Hb Hinv2]]. rewrite Hb.
-      pose proof (PF.run_stmts_length m b rho F.VNil true _ Hwb Er) as Hlen. cbn [PF.lens_ok] in Hlen.
-      exact (Hnext rho1 s1 Hlen Hinv2 Hr).
+    destruct (F.struthy vc); [|inversion Hr; subst r; exists s; split; [reflexivity|split; [exact Hsto|reflexivity]]].
+    destruct (PF.run_blk m rho b) as [rb|] eqn:Er; [|discriminate].
+    pose proof (eblock_list m f (Hst m ltac:(lia)) ltac:(lia) b rho scope locs ([] :: e) s true k rb Hinv1 Hok Hn Hwb Hhb Er) as Hb.
+    pose proof (PF.run_block_length m b rho rb Er) as Hlen.
+    destruct rb as [[rho1 v1]|[x|rho1|rho1]]; cbn [block_concl PF.lenb_ok] in *.
+    - destruct Hb as [s1 [Hb [_ Hs1]]]. rewrite Hb.
+      apply (IH ltac:(intros i Hi; apply Hst; lia) ltac:(lia) Hhc Hhb Hok Hn Henv j rho1 s1 r ltac:(lia) Hs1 ltac:(lia));
+        try (rewrite Hlen; assumption). exact Hr.
+    - destruct Hb as [s1 Hb]. rewrite Hb. inversion Hr; subst r. exists s1. destruct x; reflexivity.
+    - destruct Hb as [s1 [Hb Hs1]]. rewrite Hb. inversion Hr; subst r.
+      exists s1. split; [reflexivity|]. split; [exact Hs1|reflexivity].
+    - destruct Hb as [s1 [Hb Hs1]]. rewrite Hb.
+      apply (IH ltac:(intros i Hi; apply Hst; lia) ltac:(lia) Hhc Hhb Hok Hn Henv j rho1 s1 r ltac:(lia) Hs1 ltac:(lia));
+        try (rewrite Hlen; assumption). exact Hr.
   Qed.
+
+  Lemma scope_ok_mono k k' scope : scope_ok k scope -> k <= k' -> k' <= length names -> scope_ok k' scope.
+  Proof. intros [Hf _] Hle Hn. split; [eapply Forall_impl; [|exact Hf]; cbn; intros; lia|exact Hn]. Qed.
 
   Theorem eval_stmt : forall n, stmt_sem n.
   Proof.
     induction n as [n IH] using lt_wf_ind.
-    destruct n as [|n]; [intros st rho e s f top lp r _ _ _ _ _ Hr; discriminate|].
-    intros st rho e s f top lp r Hinv Hwf Hk Hf Hnf Hr. pose proof (sem_inv_env_ok rho e s Hinv) as Henv.
+    destruct n as [|n]; [intros st rho scope locs e s f lp k r _ _ _ _ _ _ Hr; discriminate|].
+    intros st rho scope locs e s f lp k r Hinv Hok Hk Hwf Hf Hnf Hr.
+    pose proof (sem_inv_env_ok rho scope locs e s k Hinv Hok) as Henv.
+    assert (Hls : length scope = length rho) by (destruct Hinv as [[_ [H1 _]] [H2 _]]; lia).
     destruct st as [x|i x|i o x|i up|x|c t el|c t|c b| |].
     - (* x := e *)
-      cbn [P.embed_stmt P.wf_stmt P.next_k P.sheight P.run_stmt] in *.
-      apply andb_true_iff in Hwf. destruct Hwf as [_ Hwf].
-      rewrite eval_NVar, (sem_scalar names rho x f e s Hf Hwf Henv).
-      destruct (F.sev rho x) as [v|xx]; cbn [P.of_sev] in Hr; inversion Hr; subst r; cbn [lift stmt_concl].
-      + eexists. eexists. split; [reflexivity|].
-        destruct Hinv as [Hl [Hne [Hst H]]].
-        exact (sem_inv_decl rho e s v (conj Hl (conj Hne (conj Hst H))) ltac:(lia)).
+      cbn [P.embed_stmt P.wf_stmt P.next_scope P.nd P.sheight P.run_stmt] in *.
+      rewrite eval_NVar, (sem_scalar (P.vnames names scope) rho x f e s Hf Hwf Henv).
+      destruct (F.sev rho x) as [v|xx]; cbn [P.of_sev] in Hr; inversion Hr; subst r; cbn [lift run_concl].
+      + exists (bind_name e (nth k names []) (length (store s)) false), (snd (alloc s (inj v))), [length (store s)].
+        split; [reflexivity|]. exact (sem_inv_decl rho scope locs e s v k Hinv Hok ltac:(lia)).
       + destruct xx; eexists; eexists; reflexivity.
     - (* x = e *)
-      cbn [P.embed_stmt P.wf_stmt P.next_k P.sheight P.run_stmt] in *.
+      cbn [P.embed_stmt P.wf_stmt P.next_scope P.nd P.sheight P.run_stmt] in *.
       apply andb_true_iff in Hwf. destruct Hwf as [Hi Hwf]. apply Nat.ltb_lt in Hi.
-      rewrite eval_NAssign_eq, (sem_scalar names rho x f e s Hf Hwf Henv).
-      destruct (F.sev rho x) as [v|xx]; cbn [P.of_sev] in Hr; inversion Hr; subst r; cbn [lift stmt_concl].
-      + destruct Hinv as [Hl [Hne [Hst H]]]. destruct (H i Hi) as [Hlk _]. rewrite Hlk.
-        eexists. eexists. split; [reflexivity|].
-        exact (sem_inv_set rho e s i v (conj Hl (conj Hne (conj Hst H))) Hi).
+      rewrite (vnames_nth scope i ltac:(lia)).
+      rewrite eval_NAssign_eq, (sem_scalar (P.vnames names scope) rho x f e s Hf Hwf Henv).
+      destruct (F.sev rho x) as [v|xx]; cbn [P.of_sev] in Hr; inversion Hr; subst r; cbn [lift run_concl].
+      + destruct Hinv as [[Hne [Hll H]] Hsto]. rewrite (H i ltac:(lia)).
+        exists e, (set_store s (nth i locs 0) (inj v)), []. rewrite app_nil_r. split; [reflexivity|].
+        exact (sem_inv_set rho scope locs e s i v (conj (conj Hne (conj Hll H)) Hsto) Hi).
       + destruct xx; eexists; eexists; reflexivity.
     - (* x += e *)
-      cbn [P.embed_stmt P.wf_stmt P.next_k P.sheight P.run_stmt] in *.
+      cbn [P.embed_stmt P.wf_stmt P.next_scope P.nd P.sheight P.run_stmt] in *.
       apply andb_true_iff in Hwf. destruct Hwf as [Hwf Ho]. apply andb_true_iff in Hwf. destruct Hwf as [Hi Hwf]. apply Nat.ltb_lt in Hi.
       assert (Hnc : is_cmp o = false) by (destruct o; try discriminate; reflexivity).
-      rewrite (eval_NAssign_op f e s _ o _ Ho).
-      destruct Hinv as [Hl [Hne [Hst H]]]. destruct (H i Hi) as [Hlk Hval]. rewrite Hlk, Hval.
-      rewrite (sem_scalar names rho x f e s Hf Hwf Henv).
+      rewrite (vnames_nth scope i ltac:(lia)), (eval_NAssign_op f e s _ o _ Ho).
+      pose proof Hinv as [[Hne [Hll H]] [Hlr [Hnd Hs]]]. rewrite (H i ltac:(lia)). destruct (Hs i Hi) as [Hval _]. rewrite Hval.
+      rewrite (sem_scalar (P.vnames names scope) rho x f e s Hf Hwf Henv).
       destruct (F.sev rho x) as [v|xx].
-      2:{ inversion Hr; subst r. cbn [lift stmt_concl]. destruct xx; eexists; eexists; reflexivity. }
+      2:{ inversion Hr; subst r. cbn [lift run_concl]. destruct xx; eexists; eexists; reflexivity. }
       cbn [lift]. rewrite (binop_inj s o _ v Hnc).
-      destruct (F.sbin o (nth i rho F.VNil) v) as [rv|xx]; cbn [P.of_sev] in Hr; inversion Hr; subst r; cbn [lift stmt_concl].
-      + eexists. eexists. split; [reflexivity|].
-        exact (sem_inv_set rho e s i rv (conj Hl (conj Hne (conj Hst H))) Hi).
+      destruct (F.sbin o (nth i rho F.VNil) v) as [rv|xx]; cbn [P.of_sev] in Hr; inversion Hr; subst r; cbn [lift run_concl].
+      + exists e, (set_store s (nth i locs 0) (inj rv)), []. rewrite app_nil_r. split; [reflexivity|].
+        exact (sem_inv_set rho scope locs e s i rv Hinv Hi).
       + destruct xx; eexists; eexists; reflexivity.
     - (* x++ / x-- *)
-      cbn [P.embed_stmt P.wf_stmt P.next_k P.sheight P.run_stmt] in *. apply Nat.ltb_lt in Hwf.
-      rewrite eval_NPostfix.
-      destruct Hinv as [Hl [Hne [Hst H]]]. destruct (H i Hwf) as [Hlk Hval]. rewrite Hlk, Hval.
-      destruct (nth i rho F.VNil) as [|b|z|t0] eqn:En; cbn [inj F.sbin P.of_sev] in *; inversion Hr; subst r; cbn [lift stmt_concl];
+      cbn [P.embed_stmt P.wf_stmt P.next_scope P.nd P.sheight P.run_stmt] in *. apply Nat.ltb_lt in Hwf.
+      rewrite (vnames_nth scope i ltac:(lia)), eval_NPostfix.
+      pose proof Hinv as [[Hne [Hll H]] [Hlr [Hnd Hs]]]. rewrite (H i ltac:(lia)). destruct (Hs i Hwf) as [Hval _]. rewrite Hval.
+      destruct (nth i rho F.VNil) as [|bb|z|t0] eqn:En; cbn [inj F.sbin P.of_sev] in *; inversion Hr; subst r; cbn [lift run_concl];
         try (eexists; eexists; reflexivity).
-      destruct up; (eexists; eexists; split; [reflexivity|]);
-        exact (sem_inv_set rho e s i _ (conj Hl (conj Hne (conj Hst H))) Hwf).
+      destruct up; (exists e; eexists; exists []; rewrite app_nil_r; split; [reflexivity|]);
+        exact (sem_inv_set rho scope locs e s i _ Hinv Hwf).
     - (* e *)
-      cbn [P.embed_stmt P.wf_stmt P.next_k P.sheight P.run_stmt] in *.
-      rewrite (sem_scalar names rho x (S f) e s ltac:(lia) Hwf Henv).
-      destruct (F.sev rho x) as [v|xx]; cbn [P.of_sev] in Hr; inversion Hr; subst r; cbn [lift stmt_concl].
-      + exists e, s. split; [reflexivity|exact Hinv].
+      cbn [P.embed_stmt P.wf_stmt P.next_scope P.nd P.sheight P.run_stmt] in *.
+      rewrite (sem_scalar (P.vnames names scope) rho x (S f) e s ltac:(lia) Hwf Henv).
+      destruct (F.sev rho x) as [v|xx]; cbn [P.of_sev] in Hr; inversion Hr; subst r; cbn [lift run_concl].
+      + exists e, s, []. rewrite app_nil_r. split; [reflexivity|exact Hinv].
       + destruct xx; eexists; eexists; reflexivity.
     - (* if *)
       rewrite PF.wf_SIf in Hwf. apply andb_true_iff in Hwf. destruct Hwf as [Hwct Hwe].
       apply andb_true_iff in Hwct. destruct Hwct as [Hwc Hwt].
-      rewrite PF.sheight_SIf in Hf. destruct f as [|f]; [lia|].
-      rewrite PF.run_SIf in Hr.
-      rewrite PF.embed_SIf, eval_NIf, (sem_scalar names rho c (S f) e s ltac:(lia) Hwc Henv).
+      rewrite PF.sheight_SIf in Hf. destruct f as [|f]; [lia|]. rewrite PF.nd_SIf in Hk.
+      rewrite PF.run_SIf in Hr. cbn [P.next_scope].
+      rewrite PF.embed_SIf, eval_NIf, (sem_scalar (P.vnames names scope) rho c (S f) e s ltac:(lia) Hwc Henv).
       destruct (F.sev rho c) as [vc|xx].
-      2:{ inversion Hr; subst r. cbn [lift stmt_concl]. destruct xx; eexists; eexists; reflexivity. }
+      2:{ inversion Hr; subst r. cbn [lift run_concl]. destruct xx; eexists; eexists; reflexivity. }
       cbn [lift]. rewrite truthy_inj.
-      destruct (F.struthy vc); apply (block_stmt_concl e).
-      + exact (eblock_list n f (IH n ltac:(lia)) ltac:(lia) t rho e s lp r Hinv Hwt ltac:(lia) Hr).
-      + exact (eblock_list n f (IH n ltac:(lia)) ltac:(lia) el rho e s lp r Hinv Hwe ltac:(lia) Hr).
+      destruct (F.struthy vc); apply (block_run_concl scope locs e).
+      + exact (eblock_list n f (IH n ltac:(lia)) ltac:(lia) t rho scope locs e s lp k r Hinv Hok ltac:(lia) Hwt ltac:(lia) Hr).
+      + exact (eblock_list n f (IH n ltac:(lia)) ltac:(lia) el rho scope locs e s lp (k + P.ndecls t) r Hinv
+                 (scope_ok_mono k (k + P.ndecls t) scope Hok ltac:(lia) ltac:(lia)) ltac:(lia) Hwe ltac:(lia) Hr).
     - (* if without else *)
       rewrite PF.wf_SIf1 in Hwf. apply andb_true_iff in Hwf. destruct Hwf as [Hwc Hwt].
-      rewrite PF.sheight_SIf1 in Hf. destruct f as [|f]; [lia|].
-      rewrite PF.run_SIf1 in Hr.
-      rewrite PF.embed_SIf1, eval_NIf1, (sem_scalar names rho c (S f) e s ltac:(lia) Hwc Henv).
+      rewrite PF.sheight_SIf1 in Hf. destruct f as [|f]; [lia|]. rewrite PF.nd_SIf1 in Hk.
+      rewrite PF.run_SIf1 in Hr. cbn [P.next_scope].
+      rewrite PF.embed_SIf1, eval_NIf1, (sem_scalar (P.vnames names scope) rho c (S f) e s ltac:(lia) Hwc Henv).
       destruct (F.sev rho c) as [vc|xx].
-      2:{ inversion Hr; subst r. cbn [lift stmt_concl]. destruct xx; eexists; eexists; reflexivity. }
+      2:{ inversion Hr; subst r. cbn [lift run_concl]. destruct xx; eexists; eexists; reflexivity. }
       cbn [lift]. rewrite truthy_inj.
       destruct (F.struthy vc).
-      + apply (block_stmt_concl e). exact (eblock_list n f (IH n ltac:(lia)) ltac:(lia) t rho e s lp r Hinv Hwt ltac:(lia) Hr).
-      + inversion Hr; subst r. exists e, s. split; [reflexivity|exact Hinv].
+      + apply (block_run_concl scope locs e).
+        exact (eblock_list n f (IH n ltac:(lia)) ltac:(lia) t rho scope locs e s lp k r Hinv Hok ltac:(lia) Hwt ltac:(lia) Hr).
+      + inversion Hr; subst r. exists e, s, []. rewrite app_nil_r. split; [reflexivity|exact Hinv].
     - (* for *)
       rewrite PF.wf_SWhile in Hwf. apply andb_true_iff in Hwf. destruct Hwf as [Hwc Hwb].
-      rewrite PF.sheight_SWhile in Hf. destruct f as [|f]; [lia|].
+      rewrite PF.sheight_SWhile in Hf. destruct f as [|f]; [lia|]. rewrite PF.nd_SWhile in Hk. cbn [P.next_scope].
       rewrite PF.embed_SWhile, eval_NFor_cond.
-      pose proof (wloop_sem f c b e (S n) ltac:(intros j Hj; apply IH; lia) ltac:(lia) ltac:(lia) ltac:(lia)
-                    (S f) rho s r ltac:(lia) Hinv Hwc Hwb Hr) as H.
-      destruct r as [[rho' v]|[xx|rho'|rho']]; cbn [stmt_concl]; try contradiction.
-      + destruct H as [s' [H [Hinv' ->]]]. exists e, s'. split; assumption.
+      destruct Hinv as [Henvp Hsto].
+      pose proof (wloop_sem f c b e scope locs k (S n) ltac:(intros j Hj; apply IH; lia) ltac:(lia) ltac:(lia) ltac:(lia) Hok Hk Henvp
+                    (S f) rho s r ltac:(lia) Hsto ltac:(lia) Hwc Hwb Hr) as H.
+      destruct r as [[rho' v]|[xx|rho'|rho']]; cbn [run_concl]; try contradiction.
+      + destruct H as [s' [H [Hs' ->]]]. exists e, s', []. rewrite app_nil_r. split; [exact H|split; assumption].
       + destruct H as [s' H]. exists e, s'. exact H.
     - (* break *)
-      cbn [P.run_stmt] in Hr. inversion Hr; subst r. cbn [P.embed_stmt stmt_concl]. rewrite eval_NBreak.
-      exists e, s. split; [reflexivity|exact Hinv].
+      cbn [P.run_stmt] in Hr. inversion Hr; subst r. cbn [P.embed_stmt run_concl]. rewrite eval_NBreak.
+      exists e, s, []. rewrite app_nil_r. split; [reflexivity|exact (proj2 Hinv)].
     - (* continue *)
-      cbn [P.run_stmt] in Hr. inversion Hr; subst r. cbn [P.embed_stmt stmt_concl]. rewrite eval_NContinue.
-      exists e, s. split; [reflexivity|exact Hinv].
+      cbn [P.run_stmt] in Hr. inversion Hr; subst r. cbn [P.embed_stmt run_concl]. rewrite eval_NContinue.
+      exists e, s, []. rewrite app_nil_r. split; [reflexivity|exact (proj2 Hinv)].
   Qed.
 
   (* ---------------------------------------------------------------- the statement loop of Sem.run *)
@@ -470,46 +538,47 @@ Section Names.
   Definition lift_top (r : (list F.sval * F.sval) + P.stop) : outcome :=
     match r with inl (_, v) => OVal (inj v) | inr (P.StErr x) => lift (inr x) | inr (P.StBrk _) => OBrk | inr (P.StCont _) => OCont end.
 
-  Lemma go_program n f : n <= f -> forall l rho e s last r,
-    sem_inv rho e s -> P.wf_stmts true false (length rho) l = true -> length rho + P.ndecls l <= length names ->
-    P.max_height l <= f -> P.run_stmts n rho l last = Some r ->
-    fst (go_loop (S f) e s (P.embed_stmts names (length rho) l) (inj last)) = lift_top r.
+  Lemma go_program n f : n <= f -> forall l rho scope locs e s last k r,
+    sem_inv rho scope locs e s -> scope_ok k scope -> k + P.ndecls l <= length names ->
+    P.wf_stmts false (length rho) l = true -> P.max_height l <= f -> P.run_stmts n rho l last = Some r ->
+    fst (go_loop (S f) e s (P.embed_stmts names k scope l) (inj last)) = lift_top r.
   Proof.
-    intros Hnf. induction l as [|st r0 IH]; intros rho e s last r Hinv Hwf Hn Hh Hr.
+    intros Hnf. induction l as [|st r0 IH]; intros rho scope locs e s last k r Hinv Hok Hn Hwf Hh Hr.
     - cbn in Hr. inversion Hr. reflexivity.
     - rewrite PF.wf_stmts_cons in Hwf. apply andb_true_iff in Hwf. destruct Hwf as [Hws Hwr].
-      rewrite PF.max_height_cons in Hh. rewrite PF.run_stmts_cons in Hr. rewrite PF.embed_stmts_cons, go_loop_cons.
-      assert (Hnk : P.next_k (length rho) st <= length names) by (rewrite <- PF.ndecls_cons in Hn; lia).
+      rewrite PF.max_height_cons in Hh. rewrite PF.ndecls_cons in Hn. rewrite PF.run_stmts_cons in Hr.
+      rewrite PF.embed_stmts_cons, go_loop_cons.
       destruct (P.run_stmt n rho st) as [[[rho1 v1]|x]|] eqn:Er; [| |discriminate].
-      + pose proof (eval_stmt n st rho e s f true false _ Hinv Hws Hnk ltac:(lia) Hnf Er) as He. cbn [stmt_concl] in He.
-        destruct He as [e1 [s1 [He Hinv1]]]. rewrite He, (stmt_last n rho st rho1 v1 Er).
-        pose proof (PF.run_stmt_length n rho st true false _ Hws Er) as Hlen. cbn [PF.len_ok] in Hlen.
-        rewrite <- Hlen. apply IH; [exact Hinv1|rewrite Hlen; exact Hwr|rewrite Hlen, PF.ndecls_cons; exact Hn|lia|exact Hr].
+      + pose proof (eval_stmt n st rho scope locs e s f false k _ Hinv Hok ltac:(lia) Hws ltac:(lia) Hnf Er) as He. cbn [run_concl] in He.
+        destruct He as [e1 [s1 [x1 [He Hinv1]]]]. rewrite He, (stmt_last n rho k scope st rho1 v1 Er).
+        pose proof (PF.run_stmt_length n rho st _ Er) as Hlen. cbn [PF.len_ok] in Hlen. rewrite <- Hlen in Hwr.
+        exact (IH rho1 _ _ e1 s1 v1 (k + P.nd st) r Hinv1 (scope_ok_next k scope st Hok ltac:(lia)) ltac:(lia) Hwr ltac:(lia) Hr).
       + inversion Hr; subst r.
-        pose proof (eval_stmt n st rho e s f true false _ Hinv Hws Hnk ltac:(lia) Hnf Er) as He.
-        pose proof (PF.no_escape n rho st true _ Hws Er) as Hno.
-        destruct x as [x|rho1|rho1]; cbn [stmt_concl PF.no_ctl] in *; try contradiction.
+        pose proof (eval_stmt n st rho scope locs e s f false k _ Hinv Hok ltac:(lia) Hws ltac:(lia) Hnf Er) as He.
+        pose proof (PF.no_escape n rho st _ _ Hws Er) as Hno.
+        destruct x as [x|rho1|rho1]; cbn [run_concl PF.no_ctl] in *; try contradiction.
         destruct He as [e1 [s1 He]]. rewrite He. destruct x; reflexivity.
   Qed.
 
-  Lemma predeclare_none : forall l k acc,
+  Lemma predeclare_none : forall l k scope acc,
     fold_left (fun acc st =>
                  match st with
                  | NFunc (Some nm) _ _ _ => let '(e, s) := acc in let '(l, s') := alloc s VNil in (bind_name e nm l true, s')
-                 | _ => acc end) (P.embed_stmts names k l) acc = acc.
+                 | _ => acc end) (P.embed_stmts names k scope l) acc = acc.
   Proof.
-    induction l as [|st r IH]; intros k acc; [reflexivity|].
+    induction l as [|st r IH]; intros k scope acc; [reflexivity|].
     rewrite PF.embed_stmts_cons. cbn [fold_left].
     destruct st as [x|i x|i o x|i up|x|c t el|c t|c b| |]; cbn [P.embed_stmt]; try apply IH.
     destruct x; cbn [F.embed]; apply IH.
   Qed.
 
   Theorem sem_var_program l n f r :
-    P.wf_stmts true false 0 l = true -> P.ndecls l <= length names -> P.max_height l <= f -> n <= f ->
+    P.wf_stmts false 0 l = true -> P.ndecls l <= length names -> P.max_height l <= f -> n <= f ->
     P.run_stmts n [] l F.VNil = Some r ->
-    fst (Sem.run (S f) (P.embed_stmts names 0 l)) = lift_top r.
+    fst (Sem.run (S f) (P.embed_stmts names 0 [] l)) = lift_top r.
   Proof.
     intros Hwf Hn Hh Hnf Hr. unfold Sem.run. rewrite predeclare_none.
-    exact (go_program n f Hnf l [] ([] :: global_env) init_state F.VNil r sem_inv_init Hwf Hn Hh Hr).
+    exact (go_program n f Hnf l [] [] [] ([] :: global_env) init_state F.VNil 0 r sem_inv_init
+             (conj (Forall_nil _) (Nat.le_0_l _)) Hn Hwf Hh Hr).
   Qed.
 End Names.
